@@ -13,7 +13,8 @@ EXPLANATION = (
     "note list is the duplicate-free list of defined referenced keys in order of first reference; every reference to a "
     "defined key carries the 1-based position of its key (repeats reuse it, different keys get different numbers), "
     "references to undefined keys stay literal, every emitted item n is referenced by a token numbered n and vice versa, "
-    "unreferenced definitions are not emitted, and there is one section iff something was referenced. The numbering code "
+    "unreferenced definitions are not emitted, and there is one section iff something was referenced. The id strings fn-N and "
+    "fnref-N are injective in N and the two families never meet (C14_id_strings_distinct, Proofs/DecimalProofs.v). The numbering code "
     "(parse_inline_footnote, md_footnotes_hook) is tied by committed control skeletons + key constants; id/href prefixes "
     "are regenerated from the render templates (C14_tie_targets: href = '#' + id of the partner).")
 ASSUMPTIONS = [
